@@ -318,7 +318,9 @@ def build_call(case, carrier="nd_f8", tcarrier="dt64ns", span_kind="list"):
         if case.get("clim_object"):
             # a ClimatologyConfig object that has already been used on other data (same length, other times)
             obj = qartod.ClimatologyConfig()
-            for d in cfg:
+            grown = case["clim_object"] == "grown"      # members added AFTER the object's first use
+            first = cfg[: len(cfg) // 2] if grown else cfg
+            for d in first:
                 obj.add(**d)
             n = len(case["inp"])
             try:
@@ -327,6 +329,8 @@ def build_call(case, carrier="nd_f8", tcarrier="dt64ns", span_kind="list"):
                                         np.zeros(n))
             except Exception:  # noqa: BLE001
                 pass
+            for d in cfg[len(first):]:
+                obj.add(**d)
             cfg = obj
         return qartod.climatology_test, {"config": cfg, "inp": D("inp"), "tinp": T(), "zinp": D("z")}
     if fn == "spike":
